@@ -21,7 +21,8 @@ unordered pair of words with identical NaN masks, and 1/f_last <= Tm02 <= Tm01 <
 History family (units 'history:*'): ONE spectrum object per history, every sequence of length <= 3
 over {read moments, read Hm0/Tm01/Tm02} U {in-place modifications: multiply(full array, inplace),
 multiply(array, dimensions=[frequency] / [direction], inplace), fillna(value), item assignment of
-variance_density, direct dataset assignment}; after every read (and once more after the last step)
+variance_density, direct dataset assignment, in-place edit of the numpy buffer}; after every read (and once
+more after the last step)
 the values must equal the reference recomputed from the variance density the object holds NOW.
 """
 import itertools
@@ -43,7 +44,7 @@ RULE = (
     "too, except in the thorough tier for nf<=5 (1d, 2d:d4), where they run on every band. A case (grid, word, in-band node set, power) is non-trivial when "
     "the band holds >= 2 nodes and the in-band energy is > 0; distinct cases are counted once (1d, time layout). "
     "History family: all operation sequences of length <= 3 (quick: length 3 only for 1d in the (time) layout, else <= 2) "
-    "over 2 reads and 5 (1d) / 6 (2d) in-place mutators on a fresh 6-member object (grid g5z; layout () uses two members), "
+    "over 2 reads and 6 (1d) / 7 (2d) in-place mutators on a fresh 6-member object (grid g5z; layout () uses two members), "
     "bands {default, [f1,f4)}; a history is non-trivial when a read precedes a modification."
 )
 ASSUMPTIONS = [
@@ -647,7 +648,7 @@ def run_scalar(unit):
 # ------------------------------------------------------------------------------------------
 HISTORY_GRID = "g5z"
 HISTORY_READS = ("moments", "bulk")
-HISTORY_MUTATORS = ("mul_full", "mul_frequency", "mul_direction", "fillna", "setitem", "dataset_assign")
+HISTORY_MUTATORS = ("mul_full", "mul_frequency", "mul_direction", "fillna", "setitem", "dataset_assign", "values_inplace")
 HISTORY_MAXLEN = 3
 HISTORY_WORDS = [
     (1.0, 3.0, 0.0, 1.0, 0.0), (0.0, None, 3.0, 1.0, 1.0), (3.0, 3.0, None, 0.0, 1.0),
@@ -798,6 +799,14 @@ def one_history(c, agg, f, kind, layout, E0, hist, bands, widths):
             s["variance_density"] = da.copy(data=2.0 * np.flip(da.values, axis=da.dims.index("frequency")) + 0.25)
         elif op == "dataset_assign":
             s.dataset["variance_density"] = 0.5 * s.dataset["variance_density"].roll(frequency=1, roll_coords=False)
+        elif op == "values_inplace":
+            # edit the object's own numpy buffer, the variable is not rebound
+            da = s.dataset["variance_density"]
+            buf = da.values
+            shp = [1] * buf.ndim
+            shp[da.dims.index("frequency")] = nf
+            buf *= (float(nf) - np.arange(nf, dtype=float)).reshape(shp)
+            buf += 0.5
         else:
             raise AssertionError(op)
     last = len(hist) - 1
